@@ -11,6 +11,13 @@ references):
 * the ORACLE   - plain truth-table arithmetic in this file (16-bit tables), written from the meaning
   of the operators; it only arbitrates (model != oracle is a machinery error, never a violation).
 
+Besides the operations of the model's history language the worker knows three client idioms that the model mirrors by
+operations it has: a second reference to one OBDD object (`alias`; model: p[k] = p[i] & p[i]), binary steps spelled with
+augmented assignment (model: the plain binary step) and the public node route OBDD(BDDNode(...), ordering) (`node`; model:
+the parse of the expression whose reduced ordered diagram the harness hands over, or a refused parse).  After every step
+the worker asks == AND != for every pair of slots, and edits the answers of variables() and get_list() (they are the
+caller's own objects).
+
 The harness generates expression *structures*, renders them to Python text with a precedence-aware
 printer, and re-reads the text with `ast` (`ast_struct`) to make sure the text sent to the library
 and the structure sent to the model are the same expression.
@@ -21,8 +28,10 @@ import sys, os, json, ast, itertools, subprocess, re
 
 # variable number <-> name; 'e_x' (4) is never put into an ordering by C17.  Names of more than one character on purpose:
 # CPython shares one object per one-character string, longer names arrive from JSON / str.format as EQUAL BUT DISTINCT objects
-# (a comparison by identity instead of equality inside the library is then visible)
-NAMES = ['a', 'b1', 'cc', 'd', 'e_x']
+# (a comparison by identity instead of equality inside the library is then visible).  The names are substrings and
+# concatenations of one another on purpose: 'a' and 'b' occur inside 'ab', 'b' inside 'bb' (a substring test `name in other`
+# where == was meant is visible), and 'a'+'bb' == 'ab'+'b', 'b'+'bb' == 'bb'+'b' (a table keyed by glued names is visible)
+NAMES = ['a', 'ab', 'b', 'bb', 'e_x']
 
 
 def rn(text):
@@ -337,8 +346,17 @@ class Oracle:
             if st == 'ok':
                 P[dst] = (tuple(O), tt_eval(e))
             return st
+        if k == 'node':
+            # ['node', k, O, e, spec, expect]: OBDD(<BDDNode built from spec>, O)
+            if op[5] == 'ok':
+                P[op[1]] = (tuple(op[2]), tt_eval(op[3]))
+                return 'ok'
+            return 'NodeRejected'
+        if k == 'alias':
+            P[op[2]] = P[op[1]]
+            return 'ok'
         if k in ('and', 'or', 'xor'):
-            _, i, j, dst = op
+            _, i, j, dst = op[:4]
             a, b = P[i], P[j]
             if a[0] != b[0]:
                 return 'RuntimeError'
@@ -379,7 +397,72 @@ class Oracle:
 #   ['parse', k, ord, struct, text]   ['lambda', k, args, struct, bodytext(, whole text instead of 'lambda args: body')]
 #   ['and'|'or'|'xor', i, j, k]  ['not', i, k]  ['restrict', i, v, value, k]
 #   ['reparse', i, k, 'root'|'lambda']  ['drop', i, 'del'|'cycle']  ['gc']
+#   ['and'|'or'|'xor', i, j, k, 'aug']   the same step spelled  acc = p[i]; acc &= p[j]; p[k] = acc   (the library defines no
+#                                        in-place operators: Python falls back on __and__ and the operand object stays as it is)
+#   ['alias', i, k]                      p[k] = p[i]: two slots hold ONE OBDD object (model: p[k] = p[i] & p[i], the same root,
+#                                        no new node)
+#   ['node', k, ord, struct, spec, expect]   p[k] = OBDD(<BDDNode built bottom-up from spec>, ord); spec = 0 | 1 | [var, low, high];
+#                                        expect 'ok' (spec is the reduced ordered diagram of struct under ord; model: parse) or one of
+#                                        'root_outside' / 'inner_outside' / 'misordered' (must be refused; model: a refused parse)
 # ----------------------------------------------------------------------------------------
+NODE_ACCEPT = {'root_outside': ('RuntimeError',),                        # the library's explicit guard in respect_ordering
+               'inner_outside': ('RuntimeError', 'KeyError', 'ValueError'),  # unchanged library: KeyError out of ListOrdering.cmp
+               'misordered': ('ValueError', 'RuntimeError')}
+
+
+def spec_of_tt(t, O):
+    """the reduced diagram, ordered by O, of the truth table t (which depends on variables of O only)"""
+    if t == 0:
+        return 0
+    if t == FULL:
+        return 1
+    for n, v in enumerate(O):
+        lo, hi = tt_restrict(t, v, False), tt_restrict(t, v, True)
+        if lo != hi:
+            return [v, spec_of_tt(lo, O[n + 1:]), spec_of_tt(hi, O[n + 1:])]
+    raise ValueError('table depends on a variable outside %r' % (O,))
+
+
+def spec_nodes(spec):
+    return 0 if not isinstance(spec, list) else 1 + spec_nodes(spec[1]) + spec_nodes(spec[2])
+
+
+def spec_names(spec):
+    return spec if not isinstance(spec, list) else [NAMES[spec[0]] if isinstance(spec[0], int) else spec[0],
+                                                     spec_names(spec[1]), spec_names(spec[2])]
+
+
+def spec_text(spec):
+    if not isinstance(spec, list):
+        return 'BDDNode(%d)' % spec
+    return 'BDDNode(%r, %s, %s)' % (spec_names(spec)[0], spec_text(spec[1]), spec_text(spec[2]))
+
+
+def mk_node(k, O, e, expect='ok', outsider=4):
+    """the node-route step for the expression e (all of whose variables are in O); None when the diagram of e is too small
+    for the wanted kind of ill-formed node"""
+    O = list(O)
+    if expect == 'misordered':
+        spec = spec_of_tt(tt_eval(e), list(reversed(O)))
+        if not (isinstance(spec, list) and (isinstance(spec[1], list) or isinstance(spec[2], list))):
+            return None
+    else:
+        spec = spec_of_tt(tt_eval(e), O)
+    if expect == 'root_outside':
+        if not isinstance(spec, list):
+            return None
+        spec = [outsider, spec[1], spec[2]]
+    elif expect == 'inner_outside':
+        if not isinstance(spec, list):
+            return None
+        if isinstance(spec[2], list):
+            spec = [spec[0], spec[1], [outsider, spec[2][1], spec[2][2]]]
+        elif isinstance(spec[1], list):
+            spec = [spec[0], [outsider, spec[1][1], spec[1][2]], spec[2]]
+        else:
+            return None
+    return ['node', k, O, e, spec, expect]
+
 def mk_parse(k, O, e, text=None, lam=False, full=False):
     if text is None:
         text = render_full(e) if full else render(e)
@@ -401,6 +484,8 @@ def worker_op(op):
         return ['lambda', op[1], op[5] if len(op) > 5 else lambda_text(op[2], op[4])]
     if k == 'restrict':
         return ['restrict', op[1], NAMES[op[2]], op[3], op[4]]
+    if k == 'node':
+        return ['node', op[1], [NAMES[v] for v in op[2]], spec_names(op[4])]
     return list(op)
 
 
@@ -408,6 +493,12 @@ def model_op(op):
     k = op[0]
     if k in ('parse', 'lambda'):
         return [k, op[1], list(op[2]), sx(op[3])]
+    if k == 'node':
+        return ['parse', op[1], list(op[2]), sx(op[3]) if op[5] == 'ok' else ['bad']]
+    if k == 'alias':
+        return ['and', op[1], op[1], op[2]]
+    if k in ('and', 'or', 'xor'):
+        return list(op[:4])
     if k == 'restrict':
         return ['restrict', op[1], op[2], 1 if op[3] else 0, op[4]]
     if k == 'reparse':
@@ -422,7 +513,7 @@ def norm_ops(ops):
     out = []
     for op in ops:
         op = list(op)
-        if op[0] in ('parse', 'lambda'):
+        if op[0] in ('parse', 'lambda', 'node'):
             op[3] = tup(op[3])
         out.append(op)
     return out
@@ -435,7 +526,13 @@ def op_text(op):
     if k == 'lambda':
         return 'p[%d]=OBDD(%r)' % (op[1], op[5] if len(op) > 5 else lambda_text(op[2], op[4]))
     if k in ('and', 'or', 'xor'):
+        if len(op) > 4:
+            return 'acc=p[%d]; acc%s=p[%d]; p[%d]=acc' % (op[1], {'and': '&', 'or': '|', 'xor': '^'}[k], op[2], op[3])
         return 'p[%d]=p[%d]%sp[%d]' % (op[3], op[1], {'and': '&', 'or': '|', 'xor': '^'}[k], op[2])
+    if k == 'alias':
+        return 'p[%d]=p[%d]' % (op[2], op[1])
+    if k == 'node':
+        return 'p[%d]=OBDD(%s,%s)' % (op[1], spec_text(op[4]), [NAMES[v] for v in op[2]])
     if k == 'not':
         return 'p[%d]=~p[%d]' % (op[2], op[1])
     if k == 'restrict':
@@ -526,7 +623,8 @@ def compare_history(h, lib, mod):
         ost = orc.step(op)
         otts, oeq, ovars, oords = orc.observe()
         # --- machinery sanity: proved model against the oracle
-        if M['status'] != ost or M['tt'] != otts or M['eq'] != oeq or \
+        mst = 'SyntaxError' if ost == 'NodeRejected' else ost     # a refused node is mirrored by a refused parse
+        if M['status'] != mst or M['tt'] != otts or M['eq'] != oeq or \
                 [sorted(v) if v != '-' else v for v in M['vars']] != ovars or not M['nodup']:
             raise MachineryError('model and oracle disagree at step %d (%s): model=%r oracle=%r'
                                  % (n, op_text(op), M, (ost, otts, oeq, ovars)))
@@ -537,12 +635,19 @@ def compare_history(h, lib, mod):
             break
         if L.get('harness_bug'):
             raise MachineryError('worker: %s at step %d (%s)' % (L['harness_bug'], n, op_text(op)))
-        if L['status'] != M['status']:
+        if ost == 'NodeRejected':
+            if L['status'] not in NODE_ACCEPT[op[5]]:
+                bad.append('status: library %s for a diagram that is %s, expected %s'
+                           % (L['status'], op[5].replace('_', ' '), ' or '.join(NODE_ACCEPT[op[5]])))
+        elif L['status'] != M['status']:
             bad.append('status: library %s, model %s' % (L['status'], M['status']))
         if L['tt'] != M['tt']:
             bad.append('truth tables: library %s, model %s' % (L['tt'], M['tt']))
         if L['eq'] != M['eq']:
             bad.append('== matrix: library %s, model %s' % (L['eq'], M['eq']))
+        ne = ''.join({'1': '0', '0': '1'}.get(c, c) for c in M['eq'])
+        if L['ne'] != ne:
+            bad.append('!= matrix: library %s, model %s (the complement of ==)' % (L['ne'], ne))
         if L['same'] != M['same']:
             bad.append('root-identity matrix: library %s, model %s' % (L['same'], M['same']))
         lv = [v if isinstance(v, str) else sorted(NAMES.index(x) if x in NAMES else 99 for x in v) for v in L['vars']]
@@ -582,7 +687,7 @@ def compare_history(h, lib, mod):
             for j in range(i + 1, psize):
                 if oeq[i * psize + j] == '1' and otts[i] not in ('0' * NASSIGN, '1' * NASSIGN):
                     twins = True
-        info.append({'kind': op[0], 'status': ost, 'twins': twins, 'freed': L['live'] < prev_live,
+        info.append({'kind': op[0], 'status': ost, 'lib_status': L['status'], 'twins': twins, 'freed': L['live'] < prev_live,
                      'garbage': L['live'] - M['live'], 'live': L['live'],
                      'shape': L['shape'], 'dst_nodes': None})
         prev_live = L['live']
@@ -655,7 +760,7 @@ def executable(ops, psize):
         src = []
         if k in ('and', 'or', 'xor'):
             src = [op[1], op[2]]
-        elif k in ('not', 'restrict', 'reparse'):
+        elif k in ('not', 'restrict', 'reparse', 'alias'):
             src = [op[1]]
         if any(orc.pool[i] is None for i in src):
             return False
@@ -693,6 +798,11 @@ def replay_history(R, data):
     mod = run_model([h])[0]
     for n, op in enumerate(h['ops']):
         print('step %d: %s' % (n, op_text(op)))
+        if op[0] == 'node' and op[5] != 'ok':
+            print('  (a diagram that is %s; the model mirrors the refusal by a refused parse: its status SyntaxError stands for '
+                  '"refused", the library may answer %s)' % (op[5].replace('_', ' '), ' or '.join(NODE_ACCEPT[op[5]])))
+        if op[0] == 'alias':
+            print('  (one object in two slots; the model mirrors it by p[%d] = p[%d] & p[%d]: the same root, no new node)' % (op[2], op[1], op[1]))
         print('  library:', json.dumps(lib[n]))
         print('  model  :', json.dumps(mod[n]))
     v, _ = compare_history(h, lib, mod)
@@ -706,9 +816,15 @@ def replay_history(R, data):
 # random generators (all randomness from the rng that is passed in)
 # ----------------------------------------------------------------------------------------
 BAD_FRAGMENTS = ['a + b', '-a', 'a < b', 'f(a)', 'a if b else c', 'a ^ b', '2', '+b', 'a == b', '[a]', 'a.b',
-                 'a[0]', 'lambda a: a', 'a - b', 'a * b', 'None', '"a"', 'a >> b', '(a, b)', 'a is b', 'a @ b']
+                 'a[0]', 'lambda a: a', 'a - b', 'a * b', 'None', '"a"', 'a >> b', '(a, b)', 'a is b', 'a @ b',
+                 # every comparison operator (a != b reads like xor, a <= b like implication, a == b like equivalence), chains
+                 'a != b', 'a <= b', 'a > b', 'a >= b', 'a in b', 'a not in b', 'a is not b', 'a < b < c', 'a == b == c',
+                 'a != b != c', 'a <= b <= c', 'a == b != c', 'a < b == c', '0 <= a', 'a != 1', 'a == (b != c)',
+                 'a << b', 'a // b', 'a % b', 'a ** b', 'a / b', '{a}', '{a: b}', 'a, ', '()', '...', "f'{a}'",
+                 'a[b:c]', '[a for a in b]', 'a & b < c', '~a == b', '1 == 1', 'a <= 1 & b']
 BAD_TEXTS = ['a <', '', '(a & b', 'a & b)', 'a &', 'a b', '~', 'a | | b', 'a & (b | c', ')a(', 'a and', 'not', 'a $ b',
-             'a ? b', '((a)', 'a &\n& b', 'a &\n b', 'a\nb', 'a & b\nc', 'a\n  & b']
+             'a ? b', '((a)', 'a &\n& b', 'a &\n b', 'a\nb', 'a & b\nc', 'a\n  & b',
+             'not a < b', 'not a != b and c', 'a := b', '*a', 'a !== b', 'a <> b', 'a =< b', 'a => b', 'a not b', 'a is', 'a < < b', 'a !b']
 # statements: not expressions, hence not Boolean syntax (regression corpus of fix c730a7d: the parser used to
 # read st.body[0].value and built OBDD(b) from 'a = b', OBDD(a) from 'a; b' and from 'return a')
 STATEMENT_TEXTS = ['a = b', 'a; b', 'return a', 'x = lambda a: a', 'lambda a: a; 1', 'a += b', 'del a', 'pass', 'import a',
@@ -718,8 +834,16 @@ STATEMENT_TEXTS = ['a = b', 'a; b', 'return a', 'x = lambda a: a', 'lambda a: a;
 BAD_TEXTS_EXPR_ONLY = ['  a', ' a & b', '\ta']      # unexpected indent as a text of its own, fine as a lambda body
 LEXICAL_VARIANTS = ['a\n', 'a # c', '(a\n& b)', 'a &\\\n b', '((a)) | (b)', 'a&b|c', '~ a', 'not(a)', 'a and(b)or c',
                     '0b1 & a', '0x0 | a', 'a  |\tb', '(\na\n)']
-BAD_FRAGMENTS, BAD_TEXTS, STATEMENT_TEXTS, BAD_TEXTS_EXPR_ONLY, LEXICAL_VARIANTS = (
-    [rn(t) for t in xs] for xs in (BAD_FRAGMENTS, BAD_TEXTS, STATEMENT_TEXTS, BAD_TEXTS_EXPR_ONLY, LEXICAL_VARIANTS))
+# keyword chains of four and more operands (one ast.BoolOp node with that many values), also nested in one another
+NARY_TEXTS = ['a and b and c and d', 'a or b or c or d', 'a and b and c and not d', 'not a or b or not c or d',
+              'a and b and c and d and a', 'a or b or c or d or not a or not b', 'd and c and b and a and d and c and b and a',
+              'a and b and c and d or a and not b and c and not d or not a and not b and not c and not d',
+              '(a or b or c or d) and (not a or not b or not c or not d) and (a or not b or c or not d) and (d or a)',
+              'a and (b or c or d or a) and c and 1 and d', 'a or 0 or b or False or c or d & a', '1 and 1 and 1 and 1 and a',
+              '0 or 0 or 0 or 0 or 0', 'a and b and c and 0 and d', 'not (a and b and c and d)', '~(a or b or c or d) | (a and b and c and d)',
+              'a and b and c and d and True and (a | b) and (c | d) and not (a & ~a)', 'c or c or c or c', 'a and b and a and b and a and b']
+BAD_FRAGMENTS, BAD_TEXTS, STATEMENT_TEXTS, BAD_TEXTS_EXPR_ONLY, LEXICAL_VARIANTS, NARY_TEXTS = (
+    [rn(t) for t in xs] for xs in (BAD_FRAGMENTS, BAD_TEXTS, STATEMENT_TEXTS, BAD_TEXTS_EXPR_ONLY, LEXICAL_VARIANTS, NARY_TEXTS))
 
 
 def rand_expr(rng, depth, vs, p_kw=0.3, p_const=0.08, p_bad=0.0):
@@ -739,7 +863,8 @@ def rand_expr(rng, depth, vs, p_kw=0.3, p_const=0.08, p_bad=0.0):
     if t == 'not':
         return ('not', sub(), kw)
     if kw:
-        n = 2 if rng.random() < 0.75 else 3
+        q = rng.random()
+        n = 2 if q < 0.68 else 3 if q < 0.86 else 4 if q < 0.93 else 5 if q < 0.97 else 6
         return (t + 'l', tuple(sub() for _ in range(n)))
     return (t, sub(), sub())
 
@@ -815,19 +940,30 @@ def worker_main():
         psize = len(pool)
         obs = {'status': status}
         obs['tt'] = ['-' if o is None else ''.join(evaluate(o.root, m) for m in range(NASSIGN)) for o in pool]
-        eq, same = [], []
+        eq, ne, same = [], [], []
         for i in range(psize):
             for j in range(psize):
                 a, b = pool[i], pool[j]
                 if a is None or b is None:
-                    eq.append('-'); same.append('-')
+                    eq.append('-'); ne.append('-'); same.append('-')
                 else:
                     r = safe(lambda: a == b)
                     eq.append('1' if r is True else '0' if r is False else '?')
+                    r = safe(lambda: a != b)
+                    ne.append('1' if r is True else '0' if r is False else '?')
                     same.append('1' if a.root is b.root else '0')
         obs['eq'] = ''.join(eq)
+        obs['ne'] = ''.join(ne)
         obs['same'] = ''.join(same)
-        obs['vars'] = ['-' if o is None else safe(lambda: sorted(str(v) for v in o.variables())) for o in pool]
+
+        def variables_of(o):
+            vs = o.variables()
+            out = sorted(str(v) for v in vs)
+            # the answer is the caller's own set: what the caller does with it must not reach the OBDD (seen at the next observation)
+            vs.clear()
+            vs.add('zz_callers_own')
+            return out
+        obs['vars'] = ['-' if o is None else safe(lambda: variables_of(o)) for o in pool]
         obs['ords'] = ['-' if o is None else safe(lambda: list(o.ordering.get_list())) for o in pool]
         up = walk_up()
         nonterm = [n for n in up.values() if not is_term(n)]
@@ -889,7 +1025,7 @@ def worker_main():
 
     def execute(pool, op, trash):
         k = op[0]
-        src = {'and': (1, 2), 'or': (1, 2), 'xor': (1, 2), 'not': (1,), 'restrict': (1,), 'reparse': (1,)}.get(k, ())
+        src = {'and': (1, 2), 'or': (1, 2), 'xor': (1, 2), 'not': (1,), 'restrict': (1,), 'reparse': (1,), 'alias': (1,)}.get(k, ())
         for s in src:
             if pool[op[s]] is None:
                 return 'HARNESS:empty slot %d' % op[s]
@@ -909,6 +1045,28 @@ def worker_main():
                 del lst[:1]
             elif k == 'lambda':
                 pool[op[1]] = OBDD(op[2])
+            elif k == 'node':
+                def build(spec):
+                    if not isinstance(spec, list):
+                        return BDDNode(spec)
+                    low, high = build(spec[1]), build(spec[2])
+                    return BDDNode(''.join(list(spec[0])), low, high)      # the name in a string object of its own
+                lst = list(op[2])
+                pool[op[1]] = OBDD(build(op[3]), lst)
+                lst.reverse()
+                lst.append('zz_callers_own')
+            elif k == 'alias':
+                pool[op[2]] = pool[op[1]]
+            elif k in ('and', 'or', 'xor') and len(op) > 4:
+                acc = pool[op[1]]
+                if k == 'and':
+                    acc &= pool[op[2]]
+                elif k == 'or':
+                    acc |= pool[op[2]]
+                else:
+                    acc ^= pool[op[2]]
+                pool[op[3]] = acc
+                del acc
             elif k == 'and':
                 pool[op[3]] = pool[op[1]] & pool[op[2]]
             elif k == 'or':
@@ -970,7 +1128,7 @@ def worker_main():
             steps.append(obs)
         if hung:
             pool = [None] * h['psize']
-            results.append(steps)
+            results.append(json.dumps(steps))
             continue
         # end of history: release everything; the process-global tables must be empty again
         for i in range(len(pool)):
@@ -979,8 +1137,11 @@ def worker_main():
         left = sum(1 for n in walk_up().values() if not is_term(n))
         if steps:
             steps[-1]['left_after_release'] = left
-        results.append(steps)
-    json.dump(results, sys.stdout)
+        # kept as text: strings are invisible to the cycle collector, whose runs at the gc steps and at the end of every
+        # history would otherwise re-scan all observations gathered so far
+        results.append(json.dumps(steps))
+        del steps
+    sys.stdout.write('[' + ','.join(results) + ']')
 
 
 if __name__ == '__main__':
